@@ -306,6 +306,16 @@ impl World {
             }
             Transport::Tcp => {
                 let Some(sock) = sock else { return };
+                if let Some(code) = t.tcp_reject_code {
+                    // a filter answers the SYN with an ICMP error; the connecting socket sees
+                    // the error too (EHOSTUNREACH), which the tracer ignores
+                    let remaining = (ttl - (dist - 1)).min(255) as u8;
+                    let at = clock::now() + self.sc.net.hop_delay_ns * u64::from(dist) * 2;
+                    self.socks[sock].tcp = TcpState::Failed { at, errno: libc::EHOSTUNREACH };
+                    self.counters.add("reach.tcp_rejected_by_icmp", 1);
+                    self.icmp_error_from(id, &dg, from, dist, RespKind::Unreachable, code, t.quote, &t.layout, remaining, 0, false);
+                    return;
+                }
                 let Some(t_arrive) = self.arrival(dist, 0) else {
                     self.counters.add("fault.response_loss", 1);
                     return;
